@@ -78,6 +78,20 @@ FN_BODIES = {
     'fb_if': ("-> optional default::Log",
               "select (insert default::Log { msg := 'a' }) if true else "
               "(insert default::Log { msg := 'b' })"),
+    'fb_result_alias': ("-> default::Log",
+                        "select a := (insert default::Log { msg := 'f' })"),
+    'fb_volatile_if': ("-> optional default::Log",
+                       "if random() > 0.5 then (insert default::Log "
+                       "{ msg := 'f' }) else <default::Log>{}"),
+    'fb_volatile_tuple': ("-> tuple<float64, default::Log>",
+                          "select (random(), (insert default::Log "
+                          "{ msg := 'f' }))"),
+    'fb_volatile_for': ("-> set of default::Log",
+                        "for i in {random(), 1.0} union (insert default::Log "
+                        "{ msg := <str>i })"),
+    'fb_filter_volatile': ("-> set of default::Log",
+                           "select (insert default::Log { msg := 'f' }) "
+                           "filter random() > 0.1"),
     'fb_call': ("-> default::User", "select default::mk('q')"),
     'fb_with_call': ("-> int64",
                      "with u := default::mk('q') select 1"),
